@@ -275,15 +275,14 @@ impl Language for Python {
             .format_type(&ty.r#type, ty.generic_types.as_slice())
             .map_err(|e| std::io::Error::new(std::io::ErrorKind::Other, e))?;
 
-        writeln!(
-            w,
-            "{}{} = {}\n",
-            ty.id.renamed,
-            (!ty.generic_types.is_empty())
-                .then(|| format!("[{}]", ty.generic_types.join(", ")))
-                .unwrap_or_default(),
-            r#type,
-        )?;
+        // A generic alias is an ordinary assignment whose right-hand side mentions type
+        // variables: `Page = List[T]` (subscripting it, `Page[int]`, then binds `T`).
+        ty.generic_types
+            .iter()
+            .cloned()
+            .for_each(|v| self.add_type_var(v));
+
+        writeln!(w, "{} = {}\n", ty.id.renamed, r#type)?;
 
         self.write_comments(w, true, &ty.comments, 0)?;
 
